@@ -213,7 +213,7 @@ class Ctx:
             cfg = "%sCHECK_DEADLOCK FALSE\nCONSTANTS\n  File = \"%s\"\n%s" % (
                 head, local, "".join("  %s = %s\n" % kv for kv in constants.items()))
             jobs.append(dict(module=module, cfg_text=cfg, name="%s_%s_%d" % (module, os.path.basename(base).split(".")[0], k),
-                             workers=workers, timeout=timeout, cont=True, expect_clean=False))
+                             workers=workers, timeout=timeout, cont=True, expect_clean=False, heap="3g"))
             shards.append(k)
         results = self.tlc_many(jobs, parallel=parallel or max(1, NCPU // workers))
         accepted = 0
